@@ -4,6 +4,7 @@
 -/
 import N2V.Lemmas.WorkSettled
 import N2V.Lemmas.SchedComplete
+import N2V.Lemmas.SchedReg
 namespace N2V.Work
 open N2V N2V.Load N2V.Sched N2V.Run
 
@@ -45,7 +46,7 @@ theorem build_done_js (e0 : Env) (inv0 : GInv e0.g) (plain : Plain e0.g) (hnd0 :
 theorem second_build_does_nothing (w : World) (a : InvArgs) (perms : List (List Nat)) (fin : List (Nat × Term))
     (l : Loader) (e0 : Env) (hl : loadEnv w a.manifestName = .ok (l, e0))
     (plain : Plain e0.g) (hlog : ∀ r ∈ w.log, r.deps = [])
-    (acyc : Acyclic (schedGraph e0.g)) (hpar : 0 < a.par) (n : Nat)
+    (hpar : 0 < a.par) (n : Nat)
     (hdone : (build (schedGraph e0.g) (argsOf l a) (choices a.adopt perms fin) e0).2.2 = .done n)
     (hpresent : ∀ b bm, Wanted (schedGraph e0.g) (argsOf l a) b → buildOf e0.g b = some bm → bm.cmdline.isNone = false →
       AllPresent (build (schedGraph e0.g) (argsOf l a) (choices a.adopt perms fin) e0).2.1 bm)
@@ -74,7 +75,7 @@ theorem second_build_does_nothing (w : World) (a : InvArgs) (perms : List (List 
   generalize hr : build (schedGraph e0.g) (argsOf l a) (choices a.adopt perms fin) e0 = r at j hdone hcomplete hpresent hw'
   obtain ⟨s1, e1, out1⟩ := r
   simp only [] at j hdone hcomplete hpresent hw'
-  have hsettled := fun b => build_done_settled gok dok acyc (argsOf l a) hpar (choices a.adopt perms fin) e0 n (by rw [hr]; exact hdone) b
+  have hsettled := fun b => build_done_settled_free gok dok (argsOf l a) hpar (choices a.adopt perms fin) e0 n (by rw [hr]; exact hdone) b
   rw [hr] at hsettled
   simp only [] at hsettled
   -- the log after the first build
